@@ -170,6 +170,39 @@ Definition tr_in (b : cexpr) (el coll : gexpr) : option gexpr :=
       end
   end.
 
+(* generateComprehensionGo: the comprehension is classified by the rendering of its accumulator initialiser and of
+   its loop step; [sub] is the conversion of the part of the step that is copied into the output *)
+Definition tr_compr (x : ident) (step : cexpr) (gr gi gs : gexpr) (sub : option gexpr) : option gexpr :=
+  match gi with
+  | GLitBool true =>
+      match step with
+      | ECall2 FAnd _ _ => omap (GAll x gr) sub
+      | _ => Some (GAll x gr gs)
+      end
+  | GLitBool false =>
+      match step with
+      | ECall2 FOr _ _ => omap (GExists x gr) sub
+      | _ => Some (GExists x gr gs)
+      end
+  | _ =>
+      if has_iface gi then
+        if has_tern gs then
+          match step with
+          | ECall3 FTernary _ _ _ => omap (GFilter x gr) sub
+          | _ => Some GUnknown
+          end
+        else
+          match step with
+          | ECall2 FAdd _ (EList (_ :: _)) => omap (GMapC x gr) sub
+          | _ => Some GUnknown
+          end
+      else
+        match step with
+        | ECall3 FTernary _ _ _ => omap (GExistsOne x gr) sub
+        | _ => Some (GExistsOne x gr (GBin BNe (GVar x) GLitNil))
+        end
+  end.
+
 Section Tr.
   Variable fname : ident.         (* the field carrying the marker *)
   Variable re_ok : bytes -> bool. (* regexp.Compile succeeds on a constant pattern (evaluated at generation time) *)
@@ -233,36 +266,13 @@ Section Tr.
               end) es)
     | EStruct => Some GUnknown                       (* "struct{}{}" placeholder: never compiles in a boolean position *)
     | ECompr x r acc init cond step res =>
-        obind (tr r) (fun gr => obind (tr init) (fun gi => obind (tr step) (fun gs =>
-          match gi with
-          | GLitBool true =>
-              match step with
-              | ECall2 FAnd _ c => omap (GAll x gr) (tr c)
-              | _ => Some (GAll x gr gs)
-              end
-          | GLitBool false =>
-              match step with
-              | ECall2 FOr _ c => omap (GExists x gr) (tr c)
-              | _ => Some (GExists x gr gs)
-              end
-          | _ =>
-              if has_iface gi then
-                if has_tern gs then
-                  match step with
-                  | ECall3 FTernary c _ _ => omap (GFilter x gr) (tr c)
-                  | _ => Some GUnknown
-                  end
-                else
-                  match step with
-                  | ECall2 FAdd _ (EList (t :: _)) => omap (GMapC x gr) (tr t)
-                  | _ => Some GUnknown
-                  end
-              else
-                match step with
-                | ECall3 FTernary c _ _ => omap (GExistsOne x gr) (tr c)
-                | _ => Some (GExistsOne x gr (GBin BNe (GVar x) GLitNil))
-                end
-          end)))
+        (* the part of the loop step that ends up in the output, converted *)
+        let sub := match step with
+                   | ECall2 FAnd _ c | ECall2 FOr _ c | ECall3 FTernary c _ _ => tr c
+                   | ECall2 FAdd _ (EList (t :: _)) => tr t
+                   | _ => None
+                   end in
+        obind (tr r) (fun gr => obind (tr init) (fun gi => obind (tr step) (fun gs => tr_compr x step gr gi gs sub)))
     | EOther => None
     end.
 End Tr.
